@@ -106,6 +106,11 @@ def tdm_scripts(shapes):
     p0 = ("arr", "float", "p0", None, [[N("0.5"), U("-", N("1.5")), N("2.0")]])
     p1 = ("arr", "int", "p1", None, [[N("1"), N("2"), U("-", N("3"))]])
     p2 = ("arr", "complex", "p12", (1, 2), [[N("1+2j"), N("0.5j")]])
+    # string arguments that spell the name of a declared (non-p) variable, next to the variable itself
+    for d in A.DECLS:
+        nm = d[2]
+        out.append(dict(meta, items=[p0, d, st("G", [S(nm), V(nm)], [("k", S(nm)), ("v", V(nm))], [N("0")])]))
+        out.append(dict(meta, items=[d, st("G", [S(nm)], [], [N("0")])]))
     for arrs in ([p0], [p0, p1], [p2, p0]):
         names = [a[2] for a in arrs]
         base = [st("Sgate", [V(names[0]), N("0.0")], [], [N("1")]), st("MeasureHomodyne", [], [("phi", V(names[-1]))], [N("0")])]
